@@ -30,7 +30,10 @@ class TimerRef:
     def fired(self, args, exp_args):
         now = self.env.now
         self.nfired += 1
-        check('c19.args', len(args) == len(exp_args) and And([eq(a, b) for a, b in zip(args, exp_args)]), self.nfired)
+        if any(isinstance(b, (str, bytes)) for b in exp_args):
+            check('c19.args', list(args) == list(exp_args), (self.nfired, repr(args)[:40]))
+        else:
+            check('c19.args', len(args) == len(exp_args) and And([eq(a, b) for a, b in zip(args, exp_args)]), self.nfired)
         if self.free:
             return
         if self.stopped:
@@ -87,6 +90,10 @@ def h_timer(cfg):
     elif argmode == 'scalar':
         exp_args = [sym_int('a0')]
         given = exp_args[0]
+    elif argmode in ('str', 'empty-str', 'bytes'):
+        # scalar arguments that happen to be sequences themselves
+        given = {'str': 'h1', 'empty-str': '', 'bytes': b'xy'}[argmode]
+        exp_args = [given]
     elif argmode == 'tuple':
         exp_args = [sym_int('a0'), sym_int('a1')]
         given = tuple(exp_args)
@@ -209,6 +216,10 @@ def jobs(tier, seed):
                 if auto:
                     cfg['max_fire'] = 3 if tier == 'quick' else 4
                 js.append({'harness': 'timer', 'cfg': cfg, 'weight': 20 if auto else 5, 'opts': opts})
+    # scalar arguments that are sequences themselves (strings, bytes)
+    for argmode in ('str', 'empty-str', 'bytes'):
+        js.append({'harness': 'timer', 'weight': 5,
+                   'cfg': {'auto': False, 'ctrl': ['restart'], 'cb': {}, 'argmode': argmode, 'sorts': 'int'}})
     # two timers in one environment: controlling one never affects the other
     for auto, ctrl, cb in ((False, ['stop'], {}), (False, ['restart'], {1: 'restart'}), (True, ['restart', 'stop'], {})):
         cfg = {'auto': auto, 'ctrl': ctrl, 'cb': {str(k): v for k, v in cb.items()}, 'argmode': 'list', 'sorts': 'int', 'twin': True}
